@@ -62,6 +62,20 @@ where C: FullDuplexMultiChannel<ItemType = u32> + Send + Sync + 'static,
                         }
                     },
                     "count" => { let n = chan.running_streams_count(); ret(tid, 15, n as i64, 0) },
+                    "creates" => {
+                        // listener creation with every shared access scheduled (C17)
+                        let free = table.iter().any(|s| s.lock().unwrap().is_none());
+                        if free {
+                            let (stream, id) = chan.create_stream_for_new_events();
+                            *table[id as usize].lock().unwrap() = Some(Arc::new(Mutex::new(stream)));
+                            ret(tid, 17, id as i64, 0);
+                        } else { verif::yield_point("yield", 2); ret(tid, 19, 0, 0); }
+                    },
+                    "drops" => {
+                        let i = op.arg(0) as usize;
+                        let s = table[i].lock().unwrap().take();
+                        if s.is_some() { drop(s); ret(tid, 18, i as i64, 0) } else { verif::yield_point("yield", 2); ret(tid, 19, 0, 0) }
+                    },
                     "create" => {
                         verif::yield_point("yield", 2);
                         let me = verif::suspend();
@@ -117,6 +131,16 @@ where C: FullDuplexMultiChannel<ItemType = u32> + Send + Sync + 'static,
     let mut bad: Vec<i64> = vec![];
     for (v, a) in seen.iter() { if seen.iter().any(|(w, b)| w == v && b != a) && !bad.contains(v) { bad.push(*v); } }
     out.push(-1); out.push(bad.len() as i64); out.extend(bad);
+    drop(seen);
+    // C17's last clause: with everything consumed and released, the channel accepts BUFFER_SIZE new events
+    if quiescent && case.get("probe", 0) == 1 {
+        let n = case.get("N", 4);
+        let mut accepted = 0;
+        for e in 0..n {
+            if let keen_retry::RetryResult::Ok { .. } = chan.send(900_000 + e as u32) { accepted += 1; }
+        }
+        out.push(-2); out.push(accepted);
+    }
     out
 }
 
